@@ -234,9 +234,14 @@ def tree_specs(draw, o=None, depth=None, kinds=None):  # noqa: PLR0911, PLR0912
             "nanflow": flow(),
         }
     if k == "IrregularlyBin":
+        es_ = draw(edge_lists(min(4, o.max_bins)))
+        if es_ and draw(st.integers(0, 5)) == 0:
+            # edges derived from quantiles of data with ties repeat a value: zero-width bins that stay empty
+            i_ = draw(st.integers(0, len(es_) - 1))
+            es_ = es_[: i_ + 1] + [es_[i_]] * draw(st.integers(1, 2)) + es_[i_ + 1 :]
         return {
             "k": k,
-            "edges": draw(edge_lists(min(4, o.max_bins))),
+            "edges": es_,
             "q": draw(num_q(affine=o.affine, flavours=o.flavours)),
             "value": child(),
             "nanflow": flow(),
